@@ -62,7 +62,8 @@ def run():
                                            set_operating_point=False)
         a, b = mk("a", 1, None), mk("a", 1, Power.from_watts(5.0))
         return a == b and hash(a) == hash(b) and len({a, b}) == 1 and mk("a", 1, None) < mk("b", 1, None)
-    probe("Proposal eq/hash/lt keyed by (priority, source_id)", proposal_eq)
+    # (Proposal's __eq__/__hash__/__lt__ are repository code, not a library model: they are proved by the lemmas
+    #  proposal_eq_is_key_equality / proposal_hash_respects_eq / proposal_lt_strict_total_order_on_keys)
     probe("dataclass match_args order", lambda: Bounds.__match_args__ == ("lower", "upper"))
     probe("sorted is stable and uses __lt__", lambda: sorted([(1, "b"), (0, "z"), (1, "a")], key=lambda t: t[0])
           == [(0, "z"), (1, "b"), (1, "a")])
